@@ -9,12 +9,14 @@ if [ "$1" = "-B" ]; then BASE=$2; shift 2; fi
 P=""; if [ "$1" != "-R" ] && [ "$1" != "none" ]; then P=$(realpath "$1"); fi
 # TRY_REPO=<scratch worktree of /repo> and TRY_BIN=<analyser binary> select another tree / binary (parallel development)
 REPO=${TRY_REPO:-/repo}; BIN=${TRY_BIN:-/verif/bin/pwv}
+# TRY_VERIF=<scratch dir> keeps the evidence of these trial runs out of /verif/evidence (known findings are copied in)
+VARG=""; if [ -n "${TRY_VERIF:-}" ]; then mkdir -p $TRY_VERIF/evidence; cp /verif/known_findings.jsonl $TRY_VERIF/; VARG="-verif $TRY_VERIF"; fi
 cd $REPO || exit 2
 if [ -n "$(git status --porcelain --untracked-files=no)" ]; then echo "repo dirty"; exit 2; fi
 trap 'git -C '$REPO' checkout -q HEAD -- . ; git -C '$REPO' clean -fdq -- . >/dev/null 2>&1' EXIT
 if [ -n "$BASE" ]; then git checkout -q "$BASE" -- . || exit 2; fi
 if [ "$1" = "none" ]; then shift; elif [ "$1" = "-R" ]; then git show "$2" | git apply -R || exit 2; shift 2; else git apply "$P" || exit 2; shift; fi
 for p in "$@"; do
-  out=$($BIN -prop "$p" -repo $REPO 2>&1); rc=$?
+  out=$($BIN -prop "$p" -repo $REPO $VARG 2>&1); rc=$?
   echo "== $p exit=$rc"; echo "$out" | grep -E "^(  rule|    failed|VIOLATION|KNOWN|ERROR|property=)" | head -${TRY_LINES:-12}
 done
